@@ -45,6 +45,9 @@ func exportClass(o exportOut) string {
 	if m := noSwaggerTypeRE.FindStringSubmatch(o.Err); m != nil {
 		return "error:collection-typed-parameter"
 	}
+	if strings.HasPrefix(o.Err, "none of the Swagger Types match for one_of:") {
+		return "error:union-type"
+	}
 	if o.Panic != "" {
 		return "panic:" + errClass(fmt.Errorf("%s", o.Panic))
 	}
@@ -80,7 +83,7 @@ func judgeApp(a aApp, opt options) (v verdict) {
 	} else {
 		if doc := decodeBoth(j3, oj.Bytes, oy.Bytes); doc != nil {
 			wellFormed3(j3, oj.Bytes)
-			ownRules3(j3, doc)
+			ownRules3(j3, doc, a)
 			j3.checkTypes(a, asMap(asMap(doc["components"])["schemas"]), "#/components/schemas/")
 			j3.checkEndpoints(a, doc, "#/components/schemas/")
 		}
@@ -133,6 +136,15 @@ func judgeApp(a aApp, opt options) (v verdict) {
 			}
 			if !has {
 				cls = "error:no-swagger-type-unexpected" // the application has no set / sequence typed parameter
+			}
+		}
+		if cls == "error:union-type" {
+			has := false
+			for _, td := range a.Types {
+				has = has || td.Kind == "union"
+			}
+			if !has {
+				cls = "error:no-swagger-type-unexpected:one_of" // the application has no !union
 			}
 		}
 		j2.fail("export-fails:"+cls, "export -f swagger fails: %s%s", bad.Err, bad.Panic)
@@ -248,6 +260,11 @@ func typeUsed(a aApp, name string, exceptType int) bool {
 		}
 		if td.Alias != nil && refsType(*td.Alias, name) {
 			return true
+		}
+		for _, alt := range td.Alts {
+			if alt == name {
+				return true
+			}
 		}
 	}
 	for _, ep := range a.Endpoints {
@@ -447,6 +464,22 @@ func main() {
 		if i%6 == 0 {
 			jobs = append(jobs, job{hostile(g, a), options{coq: true}, "hostile", true})
 		}
+	}
+	// kinds stream (after the main stream, whose inputs therefore stay what they were): !table, !union, json_map_key maps,
+	// nested types, references into another application
+	nk, nkArrai := 90, 1
+	if c.Thorough() {
+		nk, nkArrai = 700, 10
+	}
+	if c.Search {
+		nk *= 3
+	}
+	for i := 0; i < nk; i++ {
+		style := "sysl"
+		if i%3 == 2 {
+			style = "imported"
+		}
+		jobs = append(jobs, job{g.appKinds(appNames[g.r.Intn(3)], style), options{arrai: i < nkArrai, coq: true}, "kinds", false})
 	}
 
 	results := make([]verdict, len(jobs))
